@@ -11,6 +11,18 @@ use std::time::{Duration, Instant};
 pub const EXIT_OK: i32 = 0;
 pub const EXIT_VIOLATION: i32 = 1;
 pub const EXIT_HARNESS: i32 = 2;
+/// The first runs of every batch are re-run in a fresh process and their digests compared.
+pub const FRESH_PROCESS_RUNS: u64 = 2;
+
+/// Child side of the fresh-process check: runs one generated run and prints its digest.
+pub fn run_digest<W: World>(w: &W, seed: u64, run: u64, tier: Tier) -> i32 {
+    let mut swarm = Rng::derive(seed, run, "swarm");
+    let cfg = w.gen_cfg(&mut swarm, tier, run);
+    let mut rng = Rng::derive(seed, run, "workload");
+    let out = w.run(&cfg, Mode::Generate { rng: &mut rng, tier });
+    eprintln!("DIGEST {:016x}", out.digest);
+    0
+}
 
 pub fn verif_root() -> PathBuf {
     PathBuf::from(std::env::var("VERIF_ROOT").unwrap_or_else(|_| "/verif".to_string()))
@@ -240,6 +252,23 @@ pub fn check<W: World>(w: &W, tier: Tier, seed: u64) -> i32 {
     let runs_done = AtomicU64::new(0);
     let replay_checked = AtomicU64::new(0);
     let longest_seen = AtomicU64::new(0);
+    let early_digests: Mutex<BTreeMap<u64, u64>> = Mutex::new(BTreeMap::new());
+    // fresh-process re-runs of the first runs start now and overlap with the batch
+    let mut fresh_children: Vec<(u64, std::process::Child)> = vec![];
+    if std::env::var("VERIF_NO_FRESH_PROCESS").is_err() {
+        let exe = std::env::current_exe().expect("current_exe");
+        for run in 0..FRESH_PROCESS_RUNS.min(n_runs) {
+            if let Ok(c) = std::process::Command::new(&exe)
+                .args(["run-digest", w.property(), &seed.to_string(), &run.to_string(), tier.name()])
+                .env("VERIF_KERNEL_TRACE", "1")
+                .stdout(std::process::Stdio::null())
+                .stderr(std::process::Stdio::piped())
+                .spawn()
+            {
+                fresh_children.push((run, c));
+            }
+        }
+    }
 
     std::thread::scope(|sc| {
         for _ in 0..workers() {
@@ -270,6 +299,9 @@ pub fn check<W: World>(w: &W, tier: Tier, seed: u64) -> i32 {
                 }
                 local.merge(&out.stats);
                 longest_seen.fetch_max(out.steps.len() as u64, Ordering::Relaxed);
+                if run < FRESH_PROCESS_RUNS && out.violation.is_none() {
+                    early_digests.lock().unwrap().insert(run, out.digest);
+                }
                 if run < 3 {
                     // samples: the first three runs, written out (deterministic choice)
                     let len = out.steps.len();
@@ -308,6 +340,36 @@ pub fn check<W: World>(w: &W, tier: Tier, seed: u64) -> i32 {
     let runs_done = runs_done.load(Ordering::Relaxed);
 
     let mut exit = EXIT_OK;
+    let mut nondet = nondet;
+    // Fresh-process re-run of the first runs (other process, ASLR, allocator state; the child
+    // also enables kernel tracing with stdout discarded): digests must agree.
+    let mut fresh_checked = 0u64;
+    {
+        let early = early_digests.into_inner().unwrap();
+        for (run, child) in fresh_children {
+            let out = child.wait_with_output();
+            let Some(digest) = early.get(&run).copied() else { continue };
+            match out {
+                Ok(o) => {
+                    let text = String::from_utf8_lossy(&o.stderr).to_string();
+                    let got = text
+                        .lines()
+                        .find_map(|l| l.strip_prefix("DIGEST "))
+                        .and_then(|h| u64::from_str_radix(h.trim(), 16).ok());
+                    fresh_checked += 1;
+                    if got != Some(digest) {
+                        nondet.push(format!(
+                            "run {}: digest {:016x} in this process, {:?} in a fresh process (kernel trace on)",
+                            run,
+                            digest,
+                            got.map(|g| format!("{:016x}", g))
+                        ));
+                    }
+                }
+                Err(e) => nondet.push(format!("cannot spawn fresh process: {}", e)),
+            }
+        }
+    }
     if !nondet.is_empty() {
         for n in &nondet {
             println!("HARNESS-ERROR: NONDETERMINISM {}", n);
@@ -422,6 +484,7 @@ pub fn check<W: World>(w: &W, tier: Tier, seed: u64) -> i32 {
             "counters": counters,
             "reach_probes_at_zero": zero_probes,
             "replay_self_checks": replay_checked.load(Ordering::Relaxed),
+            "fresh_process_digest_checks": fresh_checked,
             "known_findings_observed": n_known,
             "replay_files": replay_files,
             "real_vs_stub": w.real_vs_stub(),
